@@ -24,8 +24,9 @@ use std::time::Duration;
 
 pub fn worker_main() -> ! {
     // cap the address space: a declared length of 4 GiB must fail an allocation, not thrash the machine
+    let cap_mb: u64 = std::env::var("VERIF_C05_CAP_MB").ok().and_then(|s| s.parse().ok()).unwrap_or(1024);
     unsafe {
-        let lim = libc::rlimit { rlim_cur: 400 << 20, rlim_max: 400 << 20 };
+        let lim = libc::rlimit { rlim_cur: cap_mb << 20, rlim_max: cap_mb << 20 };
         libc::setrlimit(libc::RLIMIT_AS, &lim);
     }
     crate::engine::install_panic_hook();
@@ -73,17 +74,20 @@ enum Verdict {
 }
 
 impl Worker {
-    fn spawn() -> Result<Worker, String> {
+    fn spawn(cap_mb: u32) -> Result<Worker, String> {
         let exe = std::env::current_exe().map_err(|e| e.to_string())?;
         let dir = std::env::temp_dir();
         static N: std::sync::atomic::AtomicUsize = std::sync::atomic::AtomicUsize::new(0);
         let stderr_path = dir.join(format!("vcheck-c05-{}-{}.err", std::process::id(), N.fetch_add(1, std::sync::atomic::Ordering::Relaxed)));
         let errf = std::fs::File::create(&stderr_path).map_err(|e| e.to_string())?;
+        // (no pre_exec hook: it would force fork() of this large multi-threaded process for every
+        // respawn; a worker exits by itself when its stdin closes)
         let mut child = Command::new(exe)
             .arg("__c05-worker")
             .arg("x")
             .env("RUST_BACKTRACE", "0")
             .env("RAYON_NUM_THREADS", "1")
+            .env("VERIF_C05_CAP_MB", cap_mb.to_string())
             .stdin(Stdio::piped())
             .stdout(Stdio::piped())
             .stderr(Stdio::from(errf))
@@ -168,10 +172,13 @@ thread_local! {
 static QUIET: std::sync::RwLock<()> = std::sync::RwLock::new(());
 
 fn run_in_worker(entry: u8, params: u32, data: &[u8]) -> Verdict {
+    // The file meta reader zero-fills declared lengths (slow when large, but it handles an
+    // allocation failure gracefully): a low cap keeps it fast.  The other readers reserve lazily.
+    let cap_mb = if drivers::ENTRIES[entry as usize % drivers::ENTRIES.len()] == "meta" { 400 } else { 1024 };
     WORKER.with(|w| {
         let mut w = w.borrow_mut();
         if w.is_none() {
-            match Worker::spawn() {
+            match Worker::spawn(cap_mb) {
                 Ok(x) => *w = Some(x),
                 Err(e) => return Verdict::Died("cannot start worker".into(), e),
             }
@@ -189,7 +196,7 @@ fn run_in_worker(entry: u8, params: u32, data: &[u8]) -> Verdict {
                 // re-run alone in a fresh worker with a longer budget: only a repeat counts
                 *w = None;
                 let _alone = QUIET.write().unwrap_or_else(|e| e.into_inner());
-                match Worker::spawn() {
+                match Worker::spawn(cap_mb) {
                     Ok(mut x) => match x.run(entry, params, data, Duration::from_secs(90)) {
                         Verdict::Timeout => Verdict::Timeout,
                         Verdict::Died(a, b) => Verdict::Died(a, b),
@@ -633,7 +640,26 @@ pub fn materialize(c: &Case) -> Option<Vec<u8>> {
 // ------------------------------------------------------------------ generators
 
 fn interesting32() -> BoxedStrategy<u32> {
-    prop_oneof![Just(0u32), Just(1), Just(2), Just(3), Just(0xFFFF), Just(0x1_0000), Just(0x7FFF_FFFF), Just(0xFFFF_FFFE), Just(0xFFFF_FFFF), Just(0x8000_0000), any::<u32>(), 0u32..4096].boxed()
+    // Lengths of hundreds of MB and more make a reader reserve that much; under the worker's
+    // address-space cap that ends in an allocation-failure abort (counted as inconclusive), so
+    // they are kept but rare.
+    prop_oneof![
+        2 => Just(0u32),
+        2 => Just(1u32),
+        1 => Just(2u32),
+        2 => Just(3u32),
+        2 => Just(0xFFFFu32),
+        2 => Just(0x1_0000u32),
+        1 => Just(0xFF_FFFFu32),
+        1 => Just(0x7FFF_FFFFu32),
+        1 => Just(0xFFFF_FFFEu32),
+        2 => Just(0xFFFF_FFFFu32),
+        1 => Just(0x8000_0000u32),
+        1 => any::<u32>(),
+        6 => 0u32..4096,
+        2 => 4096u32..2_000_000,
+    ]
+    .boxed()
 }
 
 fn mutation(structural: bool) -> BoxedStrategy<Mut> {
@@ -892,14 +918,52 @@ fn depth_bucket(d: u32) -> &'static str {
     }
 }
 
+/// Write `n` generated inputs per entry-point family as libFuzzer corpus files
+/// (`[entry][params le32][input bytes]`), small ones only.
+pub fn write_corpus(dir: &std::path::Path, n: u32, seed: u64) -> Result<usize, String> {
+    use proptest::strategy::ValueTree;
+    use proptest::test_runner::{Config, RngSeed, TestRunner};
+    std::fs::create_dir_all(dir).map_err(|e| e.to_string())?;
+    let mut written = 0;
+    for i in 0..drivers::ENTRIES.len() {
+        let mut runner = TestRunner::new(Config { rng_seed: RngSeed::Fixed(seed.wrapping_add(i as u64)), failure_persistence: None, ..Config::default() });
+        let strat = family(i as u8, false);
+        for k in 0..n {
+            let Ok(tree) = strat.new_tree(&mut runner) else { continue };
+            let c = tree.current();
+            if matches!(c.input, Input::Nest { depth, .. } if depth > 100) {
+                continue;
+            }
+            let Some(bytes) = materialize(&c) else { continue };
+            if bytes.len() > 8192 {
+                continue;
+            }
+            let mut f = vec![c.entry];
+            f.extend_from_slice(&c.params.to_le_bytes());
+            f.extend_from_slice(&bytes);
+            std::fs::write(dir.join(format!("{}-{k:04}", drivers::ENTRIES[i])), f).map_err(|e| e.to_string())?;
+            written += 1;
+        }
+    }
+    Ok(written)
+}
+
+/// Turn a libFuzzer input file into a replayable case (the JSON the engine's --replay understands).
+pub fn case_from_fuzz_input(data: &[u8]) -> Option<Case> {
+    if data.len() < 5 {
+        return None;
+    }
+    Some(Case { entry: data[0] % drivers::ENTRIES.len() as u8, params: u32::from_le_bytes([data[1], data[2], data[3], data[4]]), input: Input::Raw(data[5..].to_vec()) })
+}
+
 pub fn run(ctx: &Ctx) {
     let thorough = matches!(ctx.tier, Tier::Thorough);
-    ctx.assume("cases run in worker sub-processes of the same release binary (RLIMIT_AS 400 MiB, main thread, default 8 MiB stack); an allocation-failure abort is counted as inconclusive, not as a violation");
+    ctx.assume("cases run in worker sub-processes of the same release binary (RLIMIT_AS 1 GiB, 400 MiB for the file meta reader, main thread, default 8 MiB stack); an allocation-failure abort is counted as inconclusive, not as a violation");
     for (i, name) in drivers::ENTRIES.iter().enumerate() {
         let (q, t) = match *name {
             "text" | "pdu" | "meta" => (6_000, 200_000),
-            "pixels" => (4_000, 120_000),
-            _ => (3_000, 100_000),
+            "pixels" => (4_000, 100_000),
+            _ => (3_000, 40_000),
         };
         ctx.run_prop(
             name,
@@ -908,5 +972,38 @@ pub fn run(ctx: &Ctx) {
             ctx.cases(q, t),
             check,
         );
+    }
+    // the coverage-guided campaign run by ./check before this process (thorough tier only)
+    if let Ok(path) = std::env::var("VERIF_FUZZ_REPORT") {
+        match std::fs::read_to_string(&path).ok().and_then(|t| serde_json::from_str::<serde_json::Value>(&t).ok()) {
+            Some(rep) => {
+                let execs = rep["executions"].as_u64().unwrap_or(0);
+                let mut items: Vec<(Option<Case>, u64)> = vec![(None, execs)];
+                for p in rep["cases"].as_array().cloned().unwrap_or_default() {
+                    if let Some(c) = p.as_str().and_then(|p| std::fs::read_to_string(p).ok()).and_then(|t| serde_json::from_str::<serde_json::Value>(&t).ok()).and_then(|j| serde_json::from_value::<Case>(j["ir"].clone()).ok()) {
+                        items.push((Some(c), 0));
+                    }
+                }
+                ctx.run_enum(
+                    "libfuzzer_readers",
+                    &format!("coverage-guided libFuzzer campaign (cargo-fuzz, nightly, ASan) over the same drivers: corpus seeded with 60 generated inputs per entry-point family, fork mode with {} jobs, {} executions, max_len 8192, allocation-limit and time-out exits ignored (machine dependent); every crash artifact is re-run through the worker pipeline of this check and judged like a generated case (same signatures, same known findings); evaluations = libFuzzer executions", rep["jobs"], execs),
+                    items,
+                    false,
+                    |it: &(Option<Case>, u64), obs: &mut Obs| match &it.0 {
+                        None => {
+                            obs.extra_evals = it.1.saturating_sub(1);
+                            obs.class("campaign-summary");
+                        }
+                        Some(c) => {
+                            obs.class("crash-artifact");
+                            check(c, obs);
+                        }
+                    },
+                );
+            }
+            None => ctx.assume(&format!("libFuzzer campaign report {path} missing or unreadable: the thorough tier ran without it")),
+        }
+    } else if thorough {
+        ctx.assume("no libFuzzer campaign in this run (VERIF_FUZZ_REPORT not set: nightly cargo-fuzz unavailable or its build failed)");
     }
 }
